@@ -35,6 +35,13 @@ fn filled(xs: &[bool]) -> Vec<u8> {
 }
 
 pub fn gen_episode(verif_seed: u64, index: u64) -> Episode {
+    gen::FILE_IMAGES.with(|f| f.set(true));
+    let ep = gen_episode_inner(verif_seed, index);
+    gen::FILE_IMAGES.with(|f| f.set(false));
+    ep
+}
+
+fn gen_episode_inner(verif_seed: u64, index: u64) -> Episode {
     let seed = mix(verif_seed, index);
     let mut rng = Rng::new(seed);
     let cat = catalogue();
